@@ -131,6 +131,7 @@ def C(key, **kw):
 
 
 VIEWS = {}
+CURRENT_CALLER = None      # key of the function being verified (contracts stated for one caller: 'callee@caller')
 FOLDS = {}
 
 
@@ -213,7 +214,7 @@ def find_method(cls_name: str, mname: str):
         seen.add(c)
         cs = CLASSES[c]
         key = "%s.%s" % (cs.qual, mname)
-        if key in CONTRACTS:
+        if key in CONTRACTS or (CURRENT_CALLER and key + "@" + CURRENT_CALLER in CONTRACTS):
             return key
         todo.extend(cs.bases)
     return None
